@@ -93,7 +93,186 @@ pub fn c09_after_set_scripts(ck: &mut Checker, sim: &mut Sim, cmd: &SetCmd, _lis
         }
     }
 }
-pub fn c16_on_fetch_header(_ck: &mut Checker, _sim: &mut Sim, _h: &packed::Byte32, _r: Option<Result<Value, Value>>) {}
-pub fn c16_on_fetch_tx(_ck: &mut Checker, _sim: &mut Sim, _h: &packed::Byte32, _r: Option<Result<Value, Value>>) {}
-pub fn c16_on_get_tx(_ck: &mut Checker, _sim: &mut Sim, _h: &packed::Byte32, _r: Option<Result<Value, Value>>) {}
+fn c16_step(
+    ck: &mut Checker,
+    sim: &mut Sim,
+    is_tx: bool,
+    h: &packed::Byte32,
+    r: Option<Result<Value, Value>>,
+) {
+    use crate::oracle2::FetchSt;
+    use ckb_types::prelude::*;
+    let v = match r {
+        Some(Ok(v)) => v,
+        Some(Err(e)) => {
+            sim.violate("C16", "fetch_rpc_error", format!("{}", e));
+            return;
+        }
+        None => return,
+    };
+    let what = if is_tx { "fetch_transaction" } else { "fetch_header" };
+    let num = |x: &Value| -> u64 {
+        x.as_str()
+            .and_then(|s| u64::from_str_radix(s.trim_start_matches("0x"), 16).ok())
+            .unwrap_or(0)
+    };
+    let now_st = match v["status"].as_str().unwrap_or("") {
+        "added" => FetchSt::Added(num(&v["timestamp"])),
+        "fetching" => FetchSt::Fetching(num(&v["first_sent"])),
+        "fetched" => FetchSt::Fetched,
+        "not_found" => FetchSt::NotFound,
+        other => {
+            sim.violate("C16", "unknown_status", format!("{} -> {}", what, other));
+            return;
+        }
+    };
+    sim.log(format!("{} {:#x} -> {:?}", what, h, now_st));
+    let key = (is_tx, h.as_slice().to_vec());
+    let inc = sim.incarnation;
+    let tip_number = sim
+        .client
+        .as_ref()
+        .map(|c| Unpack::<u64>::unpack(&c.storage.get_last_state().1.raw().number()))
+        .unwrap_or(0);
+    let prev = ck.c16.st.get(&key).cloned();
+    let mut findings: Vec<(&str, String)> = Vec::new();
+    // where is it really?
+    let main = sim
+        .best_connected_view()
+        .map(|v| v.branch)
+        .unwrap_or(0);
+    let real_number: Option<u64> = if is_tx {
+        sim.world.tx_locs.get(h).and_then(|locs| {
+            locs.iter().find_map(|(id, _)| {
+                let n = sim.world.blocks[*id].number();
+                if sim.world.branches[main].ids.get(n as usize) == Some(id) {
+                    Some(n)
+                } else {
+                    None
+                }
+            })
+        })
+    } else {
+        sim.world
+            .by_hash
+            .get(h)
+            .map(|id| (*id, sim.world.blocks[*id].number()))
+            .and_then(|(id, n)| {
+                if sim.world.branches[main].ids.get(n as usize) == Some(&id) {
+                    Some(n)
+                } else {
+                    None
+                }
+            })
+    };
+    if let Some((p, pinc, asked_tip)) = prev.clone() {
+        if pinc == inc {
+            match (&p, &now_st) {
+                (FetchSt::Added(a), FetchSt::Added(b)) if a != b => findings.push((
+                    "added_timestamp_changed",
+                    format!("{} {:#x}: added {} -> added {}", what, h, a, b),
+                )),
+                (FetchSt::Fetching(a), FetchSt::Fetching(b)) if a != b => findings.push((
+                    "first_sent_changed",
+                    format!("{} {:#x}: fetching {} -> fetching {}", what, h, a, b),
+                )),
+                (FetchSt::Fetching(_), FetchSt::Added(_)) => findings.push((
+                    "fetching_went_back_to_added",
+                    format!("{} {:#x}", what, h),
+                )),
+                (FetchSt::Fetched, FetchSt::Added(_))
+                | (FetchSt::Fetched, FetchSt::Fetching(_))
+                | (FetchSt::Fetched, FetchSt::NotFound) => {
+                    // a header / transaction that was served is gone again
+                    if ck.c04.unnoticed.is_empty() && sim.stats.get("probe.c04.branch_switch").is_none() {
+                        findings.push((
+                            "fetched_item_disappeared",
+                            format!("{} {:#x}: fetched -> {:?}", what, h, now_st),
+                        ));
+                    }
+                }
+                _ => {}
+            }
+            if now_st == FetchSt::NotFound {
+                // only legitimate if an honest server reports it missing: not on the main
+                // chain below the tip the request was made for
+                if let Some(n) = real_number {
+                    if n < asked_tip {
+                        findings.push((
+                            "not_found_for_an_item_of_the_proven_chain",
+                            format!("{} {:#x} is in block #{} (tip was #{} when it was first asked)", what, h, n, asked_tip),
+                        ));
+                    }
+                }
+            }
+        }
+    }
+    if now_st == FetchSt::Fetched {
+        sim.stat("probe.c16.fetched");
+        // truthfulness
+        if is_tx {
+            let bh = v["data"]["tx_status"]["block_hash"].as_str().unwrap_or("");
+            let status = v["data"]["tx_status"]["status"].as_str().unwrap_or("");
+            if status == "committed" {
+                let ok = sim
+                    .world
+                    .tx_locs
+                    .get(h)
+                    .map(|locs| {
+                        locs.iter()
+                            .any(|(id, _)| format!("{:#x}", sim.world.blocks[*id].hash()) == bh)
+                    })
+                    .unwrap_or(false);
+                if !ok {
+                    findings.push((
+                        "committed_transaction_paired_with_a_block_that_does_not_contain_it",
+                        format!("fetch_transaction {:#x} reports block {}", h, bh),
+                    ));
+                }
+            }
+        } else if !sim.world.by_hash.contains_key(h) {
+            findings.push((
+                "fetched_header_is_not_a_real_block",
+                format!("fetch_header {:#x}", h),
+            ));
+        }
+    }
+    let asked_tip = match prev {
+        Some((_, pinc, t)) if pinc == inc => t,
+        _ => tip_number,
+    };
+    ck.c16.st.insert(key, (now_st, inc, asked_tip));
+    for (clause, detail) in findings {
+        sim.violate("C16", clause, detail);
+    }
+}
+
+pub fn c16_on_fetch_header(ck: &mut Checker, sim: &mut Sim, h: &packed::Byte32, r: Option<Result<Value, Value>>) {
+    c16_step(ck, sim, false, h, r);
+}
+pub fn c16_on_fetch_tx(ck: &mut Checker, sim: &mut Sim, h: &packed::Byte32, r: Option<Result<Value, Value>>) {
+    c16_step(ck, sim, true, h, r);
+}
+pub fn c16_on_get_tx(_ck: &mut Checker, sim: &mut Sim, h: &packed::Byte32, r: Option<Result<Value, Value>>) {
+    // get_transaction: committed + block hash must be truthful
+    if let Some(Ok(v)) = r {
+        if v["tx_status"]["status"].as_str() == Some("committed") {
+            let bh = v["tx_status"]["block_hash"].as_str().unwrap_or("").to_string();
+            let ok = sim
+                .world
+                .tx_locs
+                .get(h)
+                .map(|locs| locs.iter().any(|(id, _)| format!("{:#x}", sim.world.blocks[*id].hash()) == bh))
+                .unwrap_or(false);
+            sim.stat("probe.c16.get_transaction_committed");
+            if !ok {
+                sim.violate(
+                    "C16",
+                    "committed_transaction_paired_with_a_block_that_does_not_contain_it",
+                    format!("get_transaction {:#x} reports block {}", h, bh),
+                );
+            }
+        }
+    }
+}
 pub fn c02_on_get_header(_ck: &mut Checker, _sim: &mut Sim, _h: &packed::Byte32, _r: Option<Result<Value, Value>>) {}
